@@ -210,13 +210,16 @@ func (p *poller) dispatch() {
 		}
 	}
 
+	// Take the queue while holding the lock but run the handlers after releasing it: a handler is allowed to Post.
 	p.lck.Lock()
-	for _, handler := range p.posts {
+	posts := p.posts
+	p.posts = nil
+	p.lck.Unlock()
+
+	for _, handler := range posts {
 		handler()
 		p.pending--
 	}
-	p.posts = p.posts[:0]
-	p.lck.Unlock()
 }
 
 func (p *poller) SetRead(slot *Slot) error {
